@@ -27,7 +27,7 @@ from .common import Check, REPO
 
 CLASS_NAMES = ["A", "B", "C", "D", "E"]
 FUNC_NAMES = ["g0", "g1"]
-KEY_IDS = {**{f"f{i}": i for i in range(40)}, "a": 0, "<return>": 1, "x": 50, "y": 51, "k": 60, "k2": 61, "zz": 99}
+KEY_IDS = {**{f"f{i}": i for i in range(40)}, "a": 0, "<return>": 1, "*": 2, "**": 3, "x": 50, "y": 51, "k": 60, "k2": 61, "zz": 99}
 KEY_NAMES = {}
 for _k, _v in KEY_IDS.items():
     KEY_NAMES.setdefault(_v, _k)
@@ -35,7 +35,7 @@ FUEL = 60
 
 
 RULE_NAMES = ["Q", "R"]          # constrained scalar types: `class Q(int, Rule): gt = 0`
-CON_KINDS = ["le", "ge", "gt", "lt", "max_length", "min_length"]
+CON_KINDS = ["le", "ge", "gt", "lt", "max_length", "min_length", "multiple_of"]
 
 
 def name_id(n: str) -> int:
@@ -56,6 +56,8 @@ def con_ok(c, v) -> bool:
     if kind in ("max_length", "min_length"):
         n = len(v["%"]) if isinstance(v, dict) else len(v) - 1      # canonical list/tuple carry a tag
         return n <= b if kind == "max_length" else n >= b
+    if kind == "multiple_of":
+        return v % b == 0
     return {"le": v <= b, "ge": v >= b, "gt": v > b, "lt": v < b}[kind]
 
 
@@ -94,6 +96,17 @@ def ann_src(t, quoted_ok=True) -> str:
         return "Union[" + ", ".join(ann_src(a, quoted_ok) for a in t["as"]) + "]"
     if k == "whole":
         return repr(ann_src(t["a"], False))
+    # typing special forms and utype combinators (oracle: the directly written twin program)
+    if k == "final":
+        return f"Final[{ann_src(t['a'], quoted_ok)}]"
+    if k == "classvar":
+        return f"ClassVar[{ann_src(t['a'], quoted_ok)}]"
+    if k == "annot":
+        return f"Annotated[{ann_src(t['a'], quoted_ok)}, Field({t['c'][0]}={t['c'][1]})]"
+    if k == "negint":
+        return "types.NegativeInt"
+    if k in ("xor", "and", "or"):
+        return {"xor": " ^ ", "and": " & ", "or": " | "}[k].join(ann_src(a, quoted_ok) for a in t["as"])
     raise ValueError(k)
 
 
@@ -103,6 +116,18 @@ def field_src(case, t) -> str:
     if case.get("future"):
         return ann_src(strip(t), False)
     return ann_src(t)
+
+
+def func_slots(g) -> list:
+    """the typed slots of a parsed function: (key, annotation, how the model wraps it)"""
+    out = [("a", g["arg"], None)]
+    if g.get("ret"):
+        out.append(("<return>", g["ret"], None))
+    if g.get("va"):
+        out.append(("*", g["va"], "list"))       # *args: every extra positional argument
+    if g.get("kw"):
+        out.append(("**", g["kw"], "dict"))      # **kwargs: every extra keyword argument
+    return out
 
 
 def bases_of(c) -> list:
@@ -134,8 +159,8 @@ def program_src(case) -> str:
     head = []
     if case.get("future"):
         head.append("from __future__ import annotations")
-    head += ["import utype", "from utype import Schema, Field, Rule",
-             "from typing import List, Dict, Optional, Tuple, Union"]
+    head += ["import utype", "from utype import Schema, Field, Rule, types",
+             "from typing import List, Dict, Optional, Tuple, Union, Final, ClassVar, Annotated"]
     for g in case.get("funcs", {}):
         head.append(f"_seen_{g} = []")
     lines = []
@@ -156,22 +181,37 @@ def program_src(case) -> str:
         elif "fn" in op:
             f = case["funcs"][op["fn"]]
             ret = f" -> {field_src(case, f['ret'])}" if f.get("ret") else ""
-            lines.append(f"{ind}@utype.parse")
             con = (case.get("cons") or {}).get(op["fn"], {}).get("a")
             dflt = f"utype.Param(None, {con[0]}={con[1]})" if con else "None"
-            lines.append(f"{ind}def {op['fn']}(a: {field_src(case, f['arg'])} = {dflt}, r=None){ret}:")
-            lines.append(f"{ind}    _seen_{op['fn']}.append(a)")
-            lines.append(f"{ind}    return r")
+            extra = (f", *args: {field_src(case, f['va'])}" if f.get("va") else "") + \
+                    (f", **kw: {field_src(case, f['kw'])}" if f.get("kw") else "")
+            seen = "a" + (", list(args)" if f.get("va") else ", None") + (", dict(kw)" if f.get("kw") else ", None")
+            loc = bool(f.get("local")) and case.get("scope") != "function"
+            i2 = "    " if loc else ind
+            if loc:      # a function made inside another function (qualname contains <locals>)
+                lines.append(f"def _mk_{op['fn']}():")
+            lines.append(f"{i2}@utype.parse")
+            lines.append(f"{i2}def {op['fn']}(a: {field_src(case, f['arg'])} = {dflt}, r=None{extra}){ret}:")
+            lines.append(f"{i2}    _seen_{op['fn']}.append(({seen}))")
+            lines.append(f"{i2}    return r")
+            if loc:
+                lines.append(f"    return {op['fn']}")
+                lines.append(f"{op['fn']} = _mk_{op['fn']}()")
         elif "rule" in op:
             kind, b = case["rules"][op["rule"]]
             lines.append(f"{ind}class {op['rule']}(int, Rule):")
             lines.append(f"{ind}    {kind} = {b}")
+        elif "use" in op and op.get("set"):
+            # construct, then assign an attribute (immutability of Final fields)
+            lines.append(f"{ind}_canon(_out, lambda: _set({op['use']}(**{op['input']!r}), {op['set'][0]!r}, {op['set'][1]!r}))")
         elif "use" in op:
             lines.append(f"{ind}_canon(_out, lambda: {op['use']}(**{op['input']!r}))")
         elif "call" in op:
             g = op["call"]
+            extra = "".join(f", {x!r}" for x in op["input"].get("*", [])) + \
+                    "".join(f", {k}={x!r}" for k, x in op["input"].get("**", {}).items())
             lines.append(f"{ind}_call(_out, {g!r}, _seen_{g}, {bool(case['funcs'][g].get('ret'))}, "
-                         f"lambda: {g}(a={op['input']['a']!r}, r={op['input']['<return>']!r}))")
+                         f"lambda: {g}({op['input']['a']!r}, {op['input']['<return>']!r}{extra}))")
     if case.get("scope") == "function":
         lines.append("_scope(_out, _canon, _call)")
     return "\n".join(head + [""] + lines) + "\n"
@@ -226,15 +266,37 @@ def _call(out, name, seen, has_ret, thunk):
     del seen[:]
     try:
         r = thunk()
-        f = {"a": _canon_value(seen[-1])}
+        a, va, kw = seen[-1]
+        f = {"a": _canon_value(a)}
         if has_ret:
             f["<return>"] = _canon_value(r)
+        if va:                      # (nothing extra given: nothing was parsed)
+            f["*"] = _canon_value(va)
+        if kw:
+            f["**"] = _canon_value(kw)
         out.append({"ok": {"$": name, "f": f}})
     except Exception as e:  # noqa: canonicalised
         out.append(_err(e))
 
 
+def _set(obj, name, value):
+    setattr(obj, name, value)
+    return obj
+
+
 def impl(case):
+    res = impl_one(case)
+    if case.get("twin"):
+        # the property itself: the same program with every reference written directly (declarations
+        # ordered so that every name exists when it is used, no postponed evaluation)
+        t = impl_one(direct_twin(case))
+        res["twin"] = t["outs"]
+        if t.get("setup"):
+            res["twin_setup"] = t["setup"]
+    return res
+
+
+def impl_one(case):
     import sys
     import types
     import typing
@@ -248,7 +310,7 @@ def impl(case):
     mod = types.ModuleType(modname)
     sys.modules[modname] = mod
     out = []
-    mod.__dict__.update(_out=out, _canon=_canon, _call=_call)
+    mod.__dict__.update(_out=out, _canon=_canon, _call=_call, _set=_set)
     res = {}
     try:
         exec(compile(program_src(case), modname + ".py", "exec", dont_inherit=True), mod.__dict__)
@@ -387,6 +449,10 @@ def ref_use(case, defined, op):
         f = {"a": ref_field(case, defined, op["call"], "a", strip(g["arg"]), op["input"]["a"])}
         if g.get("ret"):
             f["<return>"] = ref_parse(case, defined, strip(g["ret"]), op["input"]["<return>"])
+        if g.get("va") and op["input"].get("*"):
+            f["*"] = ["L"] + [ref_parse(case, defined, strip(g["va"]), x) for x in op["input"]["*"]]
+        if g.get("kw") and op["input"].get("**"):
+            f["**"] = {"%": {k: ref_parse(case, defined, strip(g["kw"]), x) for k, x in op["input"]["**"].items()}}
         return {"ok": {"$": op["call"], "f": f}}
     except Bad:
         return {"err": "parse"}
@@ -397,12 +463,50 @@ def refs_of(t, out=None):
     k = t["t"]
     if k == "ref":
         out.append(t)
-    elif k in ("list", "dict", "opt", "whole"):
+    elif k in ("list", "dict", "opt", "whole", "final", "classvar", "annot"):
         refs_of(t["a"], out)
-    elif k in ("tuple", "union"):
+    elif k in ("tuple", "union", "xor", "and", "or"):
         for a in t["as"]:
             refs_of(a, out)
     return out
+
+
+def all_direct_any(t):
+    """every reference as a bare name, no whole-string annotation (any node kind)"""
+    if t["t"] == "whole":
+        return all_direct_any(t["a"])
+    if t["t"] == "ref":
+        return dict(t, q=False)
+    t = dict(t)
+    if "a" in t:
+        t["a"] = all_direct_any(t["a"])
+    if "as" in t:
+        t["as"] = [all_direct_any(a) for a in t["as"]]
+    return t
+
+
+def direct_twin(case):
+    import copy
+    tw = copy.deepcopy(case)
+    tw["future"] = False
+    tw.pop("twin", None)
+    for c in tw["classes"].values():
+        c["fields"] = [[f, all_direct_any(t)] for f, t in c["fields"]]
+    for g in tw["funcs"].values():
+        for k in ("arg", "ret", "va", "kw"):
+            if g.get(k):
+                g[k] = all_direct_any(g[k])
+    defs = [op for op in tw["prog"] if "def" in op or "fn" in op or "rule" in op]
+    rest = [op for op in tw["prog"] if op not in defs]
+    name = lambda op: op.get("def") or op.get("fn") or op.get("rule")  # noqa: E731
+    ordered, todo = [], defs[:]
+    while todo:
+        done = {name(o) for o in ordered}
+        nxt = next((o for o in todo if all(m in done or m == name(o) for m in mentions(tw, name(o)))), todo[0])
+        ordered.append(nxt)
+        todo.remove(nxt)
+    tw["prog"] = ordered + rest
+    return tw
 
 
 def anns_of(case, name):
@@ -411,7 +515,7 @@ def anns_of(case, name):
     if name in case["classes"]:
         return [t for _, t in case["classes"][name]["fields"]]
     g = case["funcs"][name]
-    return [t for t in (g["arg"], g.get("ret")) if t]
+    return [t for t in (g["arg"], g.get("ret"), g.get("va"), g.get("kw")) if t]
 
 
 def mentions(case, name):
@@ -548,7 +652,7 @@ def _typing_cells(case):
         if not n:
             continue
         fields = case["classes"][n]["fields"] if n in case["classes"] else \
-            [("a", case["funcs"][n]["arg"])] + ([("<return>", case["funcs"][n]["ret"])] if case["funcs"][n].get("ret") else [])
+            [(k, t) for k, t, _ in func_slots(case["funcs"][n])]
         for f, t in fields:
             if is_top_string(case, t):
                 continue
@@ -591,8 +695,9 @@ def model_val(v):
 
 
 def modelled(case) -> bool:
-    # the Lean model follows names: a program that binds a class name twice is checked by the oracle only
-    return not any(c.get("as") for c in case["classes"].values())
+    # the Lean model follows names: a program that binds a class name twice is checked by the oracle only;
+    # so are typing special forms (Final / ClassVar / Annotated) and utype's ^ & combinators (`twin`)
+    return not any(c.get("as") for c in case["classes"].values()) and not case.get("twin")
 
 
 def model_line(case, cfg=None):
@@ -614,13 +719,16 @@ def model_line(case, cfg=None):
             else:
                 name = op["fn"]
                 g = case["funcs"][name]
-                anns = [("a", g["arg"])] + ([("<return>", g["ret"])] if g.get("ret") else [])
-                local = case.get("scope") == "function"
+                anns = [(k, t) for k, t, _ in func_slots(g)]
+                shape = {k: w for k, _, w in func_slots(g)}
+                local = case.get("scope") == "function" or bool(g.get("local"))
                 func = True
             fields = []
             for f, t in anns:
                 con = (case.get("cons") or {}).get(name, {}).get(f)
                 wrap = (lambda a: {"con": [con_id(con), a]}) if con else (lambda a: a)
+                if func and shape.get(f):
+                    wrap = (lambda a, w=shape[f]: {w: a})
                 if is_top_string(case, t):
                     top[0] += 1
                     fa = {"str": top[0], "e": wrap(model_ann(strip(t), {}, ()))}
@@ -634,7 +742,8 @@ def model_line(case, cfg=None):
         elif "use" in op:
             ops.append({"use": name_id(op["use"]), "kvs": model_val(op["input"])["dict"]})
         else:
-            ops.append({"use": name_id(op["call"]), "kvs": model_val(op["input"])["dict"]})
+            given = {k: v for k, v in op["input"].items() if k not in ("*", "**") or v}
+            ops.append({"use": name_id(op["call"]), "kvs": model_val(given)["dict"]})
     line = {"ops": ops, "fuel": FUEL}
     if cfg:
         line["cfg"] = cfg
@@ -653,7 +762,7 @@ def unmodel_val(v):
     if "inst" in v:
         k, fs = v["inst"]
         name = CLASS_NAMES[k] if k < 100 else FUNC_NAMES[k - 100]     # (constrained scalars yield plain ints)
-        fn = (lambda i: KEY_NAMES[i]) if k < 100 else (lambda i: {0: "a", 1: "<return>"}[i])
+        fn = (lambda i: KEY_NAMES[i]) if k < 100 else (lambda i: {0: "a", 1: "<return>", 2: "*", 3: "**"}[i])
         return {"$": name, "f": {fn(i): unmodel_val(x) for i, x in fs}}
     raise ValueError(v)
 
@@ -846,11 +955,15 @@ def gen_use(rng, case, tgt, risky=False):
     g = case["funcs"][tgt]
     inp = {"a": gen_field_input(rng, case, tgt, "a", g["arg"], depth, 0.06)}
     inp["<return>"] = gen_input(rng, case, g["ret"], depth, 0.06) if g.get("ret") else 5
+    if g.get("va"):
+        inp["*"] = [gen_input(rng, case, g["va"], depth, 0.04) for _ in range(rng.choice([0, 1, 2]))]
+    if g.get("kw"):
+        inp["**"] = {k: gen_input(rng, case, g["kw"], depth, 0.04) for k in rng.sample(["k", "k2"], rng.choice([0, 1, 2]))}
     return {"call": tgt, "input": inp}
 
 
 RULE_OWN = {"Q": [("gt", 0), ("ge", 1)], "R": [("le", 50), ("lt", 60)]}
-RANGE_CONS = [("le", 3), ("le", 10), ("ge", 2), ("ge", 5), ("lt", 8), ("gt", 1)]
+RANGE_CONS = [("le", 3), ("le", 10), ("ge", 2), ("ge", 5), ("lt", 8), ("gt", 1), ("multiple_of", 3), ("multiple_of", 2)]
 
 
 def sub_rules(rng, t, rules):
@@ -990,7 +1103,10 @@ def gen_case(rng, tier="quick"):
             if rng.random() < 0.25 and t["t"] != "int":
                 return {"t": "whole", "a": all_direct(t)}
             return respell(rng, t, order_all if future else earlier, p_direct)
-        case["funcs"]["g0"] = {"arg": sp(targ), "ret": sp(tret)}
+        case["funcs"]["g0"] = {"arg": sp(targ), "ret": sp(tret),
+                               "va": sp(gen_type(rng, names, 1)) if rng.random() < 0.4 else None,
+                               "kw": sp(gen_type(rng, names, 1)) if rng.random() < 0.4 else None,
+                               "local": scope == "module" and rng.random() < 0.35}
         prog.insert(pos, {"fn": "g0"})
     case["prog"] = prog
     # Field(...)/Param(...) constraints on annotations that (may) go through a forward reference
@@ -1111,6 +1227,77 @@ def rebind_shapes():
     return out
 
 
+def deferred_special(case) -> bool:
+    """postponed evaluation + a Final/ClassVar/Annotated annotation that names something declared later"""
+    if not case.get("future"):
+        return False
+    pos = {}
+    for i, op, _ in walk(case):
+        n = op.get("def") or op.get("fn") or op.get("rule")
+        if n:
+            pos[n] = i
+    for n, c in case["classes"].items():
+        for _, t in c["fields"]:
+            if strip(t)["t"] in ("final", "classvar", "annot") and any(pos.get(r["n"], -1) > pos.get(n, -1) for r in refs_of(t)):
+                return True
+    return False
+
+
+def special_shapes():
+    """typing special forms around a (forward) reference, written under postponed evaluation and with a
+    quoted inner name; constrained scalar type Q declared before / after; oracle = the direct twin"""
+    out = []
+    Q = lambda q=True: {"t": "ref", "n": "Q", "q": q}  # noqa: E731
+    I = {"t": "int"}
+    forms = {
+        "final_int": {"t": "final", "a": I}, "final_q": {"t": "final", "a": Q()},
+        "classvar_int": {"t": "classvar", "a": I}, "classvar_q": {"t": "classvar", "a": Q()},
+        "annot_int": {"t": "annot", "a": I, "c": ["ge", 1]}, "annot_q": {"t": "annot", "a": Q(), "c": ["le", 10]},
+        "annot_list": {"t": "annot", "a": {"t": "list", "a": Q()}, "c": ["max_length", 1]},
+        "final_list": {"t": "final", "a": {"t": "list", "a": Q()}},
+    }
+    for fk, t in forms.items():
+        for future in (True, False):
+            for order in (["Q", "A"], ["A", "Q"]):
+                for kind in ("schema", "dataclass"):
+                    case = {"classes": {"A": {"fields": [["f0", t], ["f1", I]], "kind": kind, "local": False}},
+                            "funcs": {}, "future": future, "scope": "module", "rules": {"Q": ["gt", 0]}, "cons": {}, "twin": True}
+                    case["prog"] = [({"rule": "Q"} if n == "Q" else {"def": "A"}) for n in order]
+                    lst = strip(t)["a"]["t"] == "list"
+                    for v in ([[5], [5, 6], [0]] if lst else [1, 11, 0, "7"]):
+                        case["prog"].append({"use": "A", "input": {"f0": v, "f1": 3}})
+                    case["prog"].append({"use": "A", "input": {"f1": 3}})
+                    case["prog"].append({"use": "A", "input": {"f0": [5] if lst else 5}, "set": ["f0", [7] if lst else 7]})
+                    out.append(case)
+    return out
+
+
+def comb_shapes():
+    """utype's combinators with a generic member that holds a forward reference (`NegativeInt ^ List['B']`):
+    the member is built without a registry; B declared before / after; oracle = the direct twin"""
+    out = []
+    B = lambda q=True: {"t": "ref", "n": "B", "q": q}  # noqa: E731
+    N = {"t": "negint"}
+    gens = {"list": {"t": "list", "a": B()}, "dict": {"t": "dict", "a": B()}, "tuple": {"t": "tuple", "as": [B(), {"t": "int"}]},
+            "listopt": {"t": "list", "a": {"t": "opt", "a": B()}}}
+    vals = {"list": [[{"x": "1"}], []], "dict": [{"k": {"x": "1"}}], "tuple": [[{"x": 1}, "3"]], "listopt": [[None, {"x": 2}]]}
+    for gk, g in gens.items():
+        for op_ in ("xor", "or", "and"):
+            for members in ([N, g], [g, N]):
+                for order in (["A", "B"], ["B", "A"]):
+                    for kind, local in (("schema", False), ("schema", True), ("dataclass", False)):
+                        t = {"t": op_, "as": members}
+                        case = {"classes": {"A": {"fields": [["f0", t], ["f1", g]], "kind": kind, "local": local},
+                                            "B": {"fields": [["x", {"t": "int"}]], "kind": kind, "local": False}},
+                                "funcs": {}, "future": False, "scope": "module", "rules": {}, "cons": {}, "twin": True}
+                        case["prog"] = [{"def": n} for n in order]
+                        for v in vals[gk] + [-1, 5, "zz"]:
+                            case["prog"].append({"use": "A", "input": {"f0": v}})
+                        case["prog"].append({"use": "A", "input": {"f1": vals[gk][0]}})
+                        out.append(case)
+    return out
+
+
 def con_shapes():
     """systematic constraint part: one annotation of A naming the constrained scalar type Q in 7 spellings x a
     Field/Param constraint that fits x Q declared before / after A x 5 modes (+ as a function parameter), used
@@ -1124,13 +1311,13 @@ def con_shapes():
         "list": lambda q: {"t": "list", "a": Q(q)}, "wlist": lambda q: {"t": "whole", "a": {"t": "list", "a": Q(False)}},
         "dict": lambda q: {"t": "dict", "a": Q(q)}, "listopt": lambda q: {"t": "list", "a": {"t": "opt", "a": Q(q)}},
     }
-    ranges = [("le", 3), ("ge", 2), ("lt", 8), ("gt", 1)]
+    ranges = [("le", 3), ("ge", 2), ("lt", 8), ("gt", 1), ("multiple_of", 3)]
     lengths = [("max_length", 1), ("min_length", 1), ("max_length", 2)]
 
     def inputs(t, con):
         st = strip(t)
         kind, b = con
-        if kind in ("le", "gt"):
+        if kind in ("le", "gt", "multiple_of"):
             vals = [b, b + 1, 0]
         elif kind in ("ge", "lt"):
             vals = [b - 1, b, 0]
@@ -1248,6 +1435,8 @@ class C17(Check):
             out += con_shapes()
             out += abort_shapes()
             out += rebind_shapes()
+            out += special_shapes()
+            out += comb_shapes()
         out += [gen_case(rng, "thorough" if tier == "thorough" else "quick") for _ in range(n)]
         return out
 
@@ -1265,7 +1454,7 @@ class C17(Check):
 
     def model_line(self, case):
         if not modelled(case):
-            return {"ops": [], "fuel": 1, "unmodelled": "a class name is bound twice"}
+            return {"ops": [], "fuel": 1, "unmodelled": "a class name is bound twice / special forms and combinators"}
         import os
         if os.environ.get("C17_LEGACY"):      # development aid: the pre-fix switches, against an unpatched tree
             return model_line(case, {"uniqueKeys": False, "resolveUnion": False, "inheritRefs": False, "abortKeeps": False})
@@ -1297,6 +1486,15 @@ class C17(Check):
             # every generated program is valid when its references are written directly
             return (f"the declarations could not be created ({io['setup']}) although the same declarations "
                     f"written with direct references are valid")
+        if case.get("twin"):
+            if io.get("twin_setup"):
+                return f"HARNESS: the directly written twin does not run: {io['twin_setup']}"
+            got, want = [norm_impl(o) for o in io["outs"]], [norm_impl(o) for o in io.get("twin", [])]
+            for j, (g, w) in enumerate(zip(got, want)):
+                if g != w:
+                    return (f"use #{j} returned {json.dumps(g, sort_keys=True)} but the same program with direct "
+                            f"references (no postponed evaluation) gives {json.dumps(w, sort_keys=True)}")
+            return None if len(got) == len(want) else f"HARNESS: {len(got)} outcomes, twin {len(want)}"
         us = uses(case)
         if len(us) != len(io["outs"]):
             return f"HARNESS: {len(us)} uses but {len(io['outs'])} outcomes"
@@ -1316,6 +1514,8 @@ class C17(Check):
     def classify(self, case, io, why):
         if why.startswith("HARNESS") or "outs" not in io or io.get("setup"):
             return None
+        if case.get("twin"):
+            return "postponed-special-form-deferred" if deferred_special(case) else None
         # function-local sibling named through a string: never visible to the parser's namespace
         if case.get("scope") == "function":
             # ... and only while the code still does what the model of that mechanism predicts
